@@ -145,9 +145,15 @@ def parse_observed(source, stop=False, matcher=None, parser=None, idgen=None, bu
             o.ast = parser.parse(arg, matcher) if matcher is not None else parser.parse(arg)
             o.status = "ok"
         except CompositeParserException as e:
-            o.status = "errors"
             o.exc = e
-            o.errors = [err_record(x) for x in e.errors]
+            errs = getattr(e, "errors", None)
+            if isinstance(errs, (list, tuple)):
+                o.status = "errors"
+                o.errors = [err_record(x) for x in errs]
+            else:                       # the composite does not carry its list of errors: not a usable outcome
+                o.status = "crash"
+                o.exc_origin = _origin(e)
+                o.tb = "CompositeParserException without a list in .errors (%r)" % (errs,)
         except ParserError as e:
             o.status = "single"
             o.exc = e
@@ -190,7 +196,8 @@ def f1_from_opened(text, opened):
 def g1_typed_outcome(o):
     out = []
     if o.status == "crash":
-        out.append(("G1", {"what": "exception other than ParserError escaped Parser.parse",
+        out.append(("G1", {"what": "CompositeParserException does not carry the list of its errors" if isinstance(o.exc, CompositeParserException)
+                           else "exception other than ParserError escaped Parser.parse",
                            "type": type(o.exc).__name__, "repr": repr(o.exc)[:200], "origin": o.exc_origin,
                            "stop": o.stop}))
         return out
